@@ -46,8 +46,10 @@ LEX_ASSUMPTIONS = [
     "literals distinct); the grammar and c_info tables are arbitrary finite sets / maps / pair lists of strings",
     "g.char_allowed(c), Token(text, grammar=g).is_numeric() and token.is_datetime() are total uninterpreted predicates of the text "
     "(their definitions: grammar table contracts of C15, decoder/Token contracts T_dec)",
-    "pvl.lexer._prepare_comment_tuples and the generator pvl.lexer.lexer (the loop that calls the helpers and decides when to "
-    "yield) are not under contract: covered by the bounded drivers only",
+    "pvl.lexer.lexer: a ONE-ITERATION contract of its main loop (loop-carried lexeme / preserve arbitrary at the head of an arbitrary "
+    "iteration, preserve state invariant) - what one character does and when a token is yielded; that the yielded sequence as a whole "
+    "is the token sequence of the text (an inductive claim over the loop) is not proved: bounded drivers; the send() protocol of the "
+    "generator is observed natively (protocol section); pvl.lexer._prepare_comment_tuples: assumed to build consistent tables",
 ]
 
 
@@ -60,10 +62,20 @@ def lexer_sections(ctx, pid):
     from ..contracts import lexer as cl
     s = Section("lexer-helper-contracts", "smt",
                 rule="lex_preserve, lex_singlechar_comments, lex_multichar_comments, lex_comment, lex_char, lex_continue, "
-                     "_prev_char, _next_char: result == spec function of the arguments, for arbitrary grammar tables")
+                     "_prev_char, _next_char: result == spec function of the arguments, for arbitrary grammar tables; lexer(): per-character "
+                     "step - a disallowed next character, white space, a reserved character or the end of the text ends the lexeme; nothing "
+                     "is yielded for an empty lexeme or while a look-ahead exception / preserve state holds; a yield restarts the accumulation")
     t0 = time.time()
     contracts = cl.contracts()
     verify_contracts(s, contracts, LexTheory, ["pvl.lexer"], jobs=ctx.jobs)
+    # one-iteration contract of the main loop of lexer() (the helpers above are its callees)
+    verify_contracts(s, cl.loop_contracts(), LexTheory, ["pvl.lexer", "pvl.exceptions"], jobs=1, only="pvl.lexer.lexer")
+    import pvl.grammar as _G
+    from ..harness import DISCHARGED as _D, FAILED as _F
+    for gcls in (_G.PVLGrammar, _G.ODLGrammar, _G.PDSGrammar, _G.ISISGrammar, _G.OmniGrammar):
+        multi = [p for p in gcls().comments if len(p[0]) != 1]
+        s.obl(f"pvl.grammar.{gcls.__name__}:multi-character-comments-are-the-supported-pair-only", _D if all(p == ("/*", "*/") for p in multi) else _F,
+              "ground", detail=str(multi))
     s.assumptions += LEX_ASSUMPTIONS
     s.seconds = time.time() - t0
     # run-time evaluation of the same contracts (CPython cross-check of the modelling; failing-input search)
